@@ -112,6 +112,17 @@ fn wallet_tx(w: &mut W, amount: u64, fee: u64, rep: &mut Report, ctx: &serde_jso
     }
 }
 
+/// (balance, unspent list, spent flags) of the wallet
+fn wallet_fingerprint(w: &W) -> (u64, Vec<String>, Vec<String>) {
+    let wal = w.p.node.wallet.try_read().unwrap();
+    let show = |k: &SaitoUTXOSetKey| Slip::parse_slip_from_utxokey(k).map(|s| format!("{}-{}-{}:{}", s.block_id, s.tx_ordinal, s.slip_index, s.amount)).unwrap_or_default();
+    let mut u: Vec<String> = wal.unspent_slips.iter().map(show).collect();
+    u.sort();
+    let mut sp: Vec<String> = wal.slips.iter().filter(|(_, s)| s.spent).map(|(k, _)| show(k)).collect();
+    sp.sort();
+    (wal.get_available_balance(), u, sp)
+}
+
 fn balance(w: &W) -> u64 {
     w.p.node.wallet.try_read().unwrap().get_available_balance()
 }
@@ -143,9 +154,15 @@ fn apply(w: &mut W, op: Op, rep: &mut Report, hist: &[Op]) -> bool {
             if bal == 0 && op != Op::OutTooMuch {
                 return false;
             }
+            let before = wallet_fingerprint(w);
             let Some(t) = wallet_tx(w, amount, fee, rep, &ctx) else {
                 rep.outcome(if op == Op::OutTooMuch { "create-refused:too-much" } else { "create-refused" });
-                return op == Op::OutTooMuch;
+                // a refused request builds nothing, so it commits nothing: the wallet is unchanged
+                let after = wallet_fingerprint(w);
+                if before != after {
+                    rep.violate(&format!("refused-request-changed-wallet/{:?}", op), format!("before {:?} after {:?} history {:?}", before, after, hist), ctx.clone());
+                }
+                return true;
             };
             if op == Op::OutTooMuch {
                 rep.violate("wallet-built-tx-spending-more-than-balance", format!("balance {} amount {}", bal, amount), ctx.clone());
